@@ -818,6 +818,26 @@ func inOpts(o Opts, set []Opts) bool {
 	return false
 }
 
+// aged returns the journal with the connected_at field of every stored session moved `by` seconds into the past.
+func aged(cmds []resp.Cmd, by int64) []resp.Cmd {
+	out := make([]resp.Cmd, len(cmds))
+	for i, c := range cmds {
+		out[i] = c
+		if len(c.Args) > 1 && strings.EqualFold(c.Args[0], "HSET") && strings.HasPrefix(c.Args[1], "session:") {
+			a := append([]string(nil), c.Args...)
+			for j := 2; j+1 < len(a); j += 2 {
+				if a[j] == "connected_at" {
+					if t, err := strconv.ParseInt(a[j+1], 10, 64); err == nil && t > by {
+						a[j+1] = strconv.FormatInt(t-by, 10)
+					}
+				}
+			}
+			out[i].Args = a
+		}
+	}
+	return out
+}
+
 func restart(rec *Recorded, pl *Plan) (res *Result) {
 	t0 := time.Now()
 	res = &Result{H: pl.H, K: pl.K, Divs: []Div{}}
@@ -839,6 +859,13 @@ func restart(rec *Recorded, pl *Plan) (res *Result) {
 		if len(rec.Entries[i].Args) > 0 {
 			cmds = append(cmds, rec.Entries[i].cmd())
 		}
+	}
+	if pl.K%2 == 1 {
+		// "dies at any point" includes any time after the sessions were connected: on every other prefix the stored
+		// connected_at is moved ~11 days into the past (longer than every expiry interval in use).  A session lives
+		// until its expiry interval has passed since the END of its last connection - the crash -, however long that
+		// connection had lasted.
+		cmds = aged(cmds, 1000000)
 	}
 	fake, err := fakeFrom(cmds)
 	if err != nil {
